@@ -324,7 +324,7 @@ def lines_family(name, seed=1):
     wd = workdir('cgt_' + name)
     out = os.path.join(wd, 'findings.ndjson')
     common.build_cli()
-    s = harness('replay_lines', ['--in', m['out'], '--out', out, '--bases', '2' if name.endswith('_q') else '1', '--cli', common.CGT_TOOL, '--cli-every', '23'])
+    s = harness('replay_lines', ['--in', m['out'], '--out', out, '--bases', '2' if name.endswith('_q') else '1', '--cli', common.CGT_TOOL, '--cli-every', '23', '--pad-every', '2' if fam.get('files') else '5'])
     r = {'name': name, 'tlc': m, 'summary': s, 'findings': read_ndjson(out), 'obs': None}
     log(f'[replay] MC_Lines/{name}: {s["records"]} behaviours, {s["counters"].get("executions", 0)} executions, '
         f'{s["findings"]} deviations')
@@ -467,6 +467,28 @@ def combine(fams, nontrivial_key, rule, exhaustive=True, assumptions=None):
 
 def fam_list(tier, quick, thorough):
     return [cgt_family(n) for n in (quick if tier == 'quick' else quick + thorough)]
+
+
+def long_family(tier, seed=1):
+    """Cgt.tla's prediction-free invariants (LegsSumToSold, ClaimsWithinBought, ClosingHolding, CostConservedAtEnd,
+    FailIffUncovered with the closed form of the holding, the Same Day part of LegOrder) evaluated on the implementation's
+    own report for seeded single-security ledgers of 60-140 lines (dozens of open lots and disposals, reorganisations,
+    cost events): beyond every per-security size threshold; no TLC run of its own (the invariants are model-checked in
+    the bounded families)."""
+    name = 'long_q' if tier == 'quick' else 'long_t'
+    if name in _family_cache:
+        return _family_cache[name]
+    wd = workdir('cgt_' + name)
+    out = os.path.join(wd, 'findings.ndjson')
+    s = harness('replay_long', ['--seeds', '96' if tier == 'quick' else '1500', '--seed', str(seed), '--out', out])
+    c = s['counters']
+    if c.get('covered', 0) < 10 or c.get('disposals', 0) < 100 or c.get('uncovered', 0) < 1:
+        raise common.ToolError(f'long ledgers are vacuous: {c}')
+    r = {'name': name, 'tlc': {'states': 0, 'transitions': 0, 'cached': False}, 'summary': s, 'findings': read_ndjson(out), 'obs': None}
+    log(f'[replay] long ledgers/{name}: {s["records"]} ledgers, {c.get("lines", 0)} lines, {c.get("disposals", 0)} disposals '
+        f'({c.get("three_leg_disposals", 0)} with three or more legs), {c.get("uncovered", 0)} uncovered, {s["findings"]} deviations')
+    _family_cache[name] = r
+    return r
 
 
 # --------------------------------------------------------------------------------------------
